@@ -383,9 +383,11 @@ func (m *Manager) ApplyBatch(entries []*wal.Entry) error {
 			return err // Return ErrWALRotating for retry handling
 		}
 
-		// Apply each entry to the MemTable
-		for i, entry := range entries {
-			seqNum := startSeqNum + uint64(i)
+		// Apply each entry to the MemTable. All entries of a batch share the
+		// single sequence number the WAL assigned to the batch (this is also
+		// what recovery replays), so stamps never run ahead of the WAL counter.
+		for _, entry := range entries {
+			seqNum := startSeqNum
 
 			switch entry.Type {
 			case wal.OpTypePut:
